@@ -221,11 +221,11 @@ static void case_c02f(const drvargs_t *a,long id){
 }
 
 /* ------------------------------------------------------------------ C11 */
-typedef struct { long n; uint64_t h; } pkout_t;
+typedef struct { long n; uint64_t h; int retried; } pkout_t;
 /* decode packets [from,to) of list with disturbance; out[j] = what packet j's blockin made available */
 typedef struct { int kind; int k; int arg; uint64_t seed; int pagegran; } dist_t;
-static const char *distname[]={"none","drop","duplicate","truncate","bitflip","random-bytes","header-as-audio","restart-before","fresh-decoder-at","trackonly","zero-length"};
-#define DIST_KINDS 11
+static const char *distname[]={"none","drop","duplicate","truncate","bitflip","random-bytes","header-as-audio","restart-before","fresh-decoder-at","trackonly","zero-length","early-blockin-refused-then-retried","restart-before-renumbered-from-0"};
+#define DIST_KINDS 13
 static int c11_decode(const pktlist_t *pk,const dist_t *D,pkout_t *out,int *chn){
   vorbis_info vi; vorbis_comment vc; vorbis_dsp_state vd; vorbis_block vb; ogg_packet op; rng_t r; rng_seed(&r,D->seed,0x11,(uint64_t)D->k);
   vorbis_info_init(&vi); vorbis_comment_init(&vc);
@@ -234,7 +234,7 @@ static int c11_decode(const pktlist_t *pk,const dist_t *D,pkout_t *out,int *chn)
   if(vorbis_synthesis_init(&vd,&vi)){ vorbis_comment_clear(&vc); vorbis_info_clear(&vi); return -2; }
   vorbis_block_init(&vd,&vb);
   int na=pk->n-3;
-  for(int j=0;j<na;j++){ out[j].n=-1; out[j].h=0; }
+  for(int j=0;j<na;j++){ out[j].n=-1; out[j].h=0; out[j].retried=0; }
   for(int j=(D->kind==8?D->k:0);j<na;j++){
     pkt_t P=pk->v[3+j]; unsigned char *tmp=NULL; int reps=1; int track=0;
     if(D->pagegran && !P.e_o_s && (j%D->pagegran)!=D->pagegran-1) P.granulepos=-1;   /* per-page granule convention */
@@ -249,14 +249,22 @@ static int c11_decode(const pktlist_t *pk,const dist_t *D,pkout_t *out,int *chn)
       case 7: vorbis_synthesis_restart(&vd); break;
       case 9: track=1; break;
       case 10: P.bytes=0; break;
+      case 12: vorbis_synthesis_restart(&vd); break;
       default: break;
       }
     }
+    if(D->kind==12 && j>=D->k) P.packetno=j-D->k;     /* libogg numbers packets from 0 again after a stream reset (what every vorbisfile seek does) */
+    int hold=(D->kind==11 && j==D->k-1);              /* leave packet k-1's output undrained, so that the blockin of packet k comes too early */
     for(int rep=0;rep<reps;rep++){
       pkt_to_ogg(&P,&op);
       int rs= track?vorbis_synthesis_trackonly(&vb,&op):vorbis_synthesis(&vb,&op);
-      if(rs==0) vorbis_synthesis_blockin(&vd,&vb);
       float **pcm; int n; long tot=0; uint64_t h=0;
+      if(rs==0){ int br=vorbis_synthesis_blockin(&vd,&vb);
+        if(D->kind==11 && j==D->k && br==OV_EINVAL && j>0){ /* refused (output pending): a refused block must change nothing - drain what belongs to packet k-1, then submit the same block again */
+          long t1=0; uint64_t h1=0; while((n=vorbis_synthesis_pcmout(&vd,&pcm))>0){ for(int c=0;c<vi.channels;c++) h1=fnv1a(pcm[c],sizeof(float)*n,h1); t1+=n; vorbis_synthesis_read(&vd,n); }
+          out[j-1].n=t1; out[j-1].h=h1; out[j].retried=1;
+          if(vorbis_synthesis_blockin(&vd,&vb)) out[j].retried=2; } }
+      if(hold){ out[j].n=0; out[j].h=0; continue; }
       while((n=vorbis_synthesis_pcmout(&vd,&pcm))>0){ for(int c=0;c<vi.channels;c++) h=fnv1a(pcm[c],sizeof(float)*n,h); tot+=n; vorbis_synthesis_read(&vd,n); }
       out[j].n=(rep==0?0:out[j].n)+tot; out[j].h= rep==0?h:out[j].h*31+h;
       if(rep==0 && reps==2){ /* the duplicate's own output is part of the disturbance; record only the second pass for index k */ }
@@ -296,6 +304,12 @@ static void case_c11(const drvargs_t *a,long id){
       if(c11_decode(&pk,&D,dis,&ch)) { res_viol("C11","harness-decode-failed","%s",desc); break; }
       res_eval(1);
       int bad=-1;
+      if(kind==11){ /* nothing may change at all: the refused call is not a disturbance of the stream */
+        if(k>0 && dis[k].retried==2) res_viol("C11","retried-blockin-refused","packet %d: blockin refused (output pending), drained, submitted again and refused again: %s",k,desc);
+        if(k>0 && dis[k].retried) res_count("early_blockins_refused_and_retried",1);
+        for(int j=0;j<na;j++) if(clean[j].n!=dis[j].n || clean[j].h!=dis[j].h){ bad=j; break; }
+        if(bad>=0){ res_viol("C11","refused-blockin-changed-the-decode","blockin of packet %d refused while output was pending, then retried: packet %d yields %ld samples (clean %ld) or other values: %s",k,bad,dis[bad].n,clean[bad].n,desc); continue; }
+        res_bucket("%s|%s|%s|%s",distname[kind],k<2?"head":k>=na-3?"tail":"mid",D0.pagegran?"pagegran":"pktgran",model?"model":"enc"); continue; }
       for(int j=k+2;j<na;j++) if(clean[j].n!=dis[j].n || clean[j].h!=dis[j].h){ bad=j; break; }
       if(bad>=0){
         int is_last=(bad==na-1); int cntdiff=(clean[bad].n!=dis[bad].n);
